@@ -353,6 +353,8 @@ pub fn exec(toks: &[&str]) -> String {
             EV_CALL => format!("k{}", e.a),
             EV_DROP_OUT => format!("o{}", e.a),
             EV_DROP_IN => format!("i{}", e.a),
+            vclock::EV_BARRIER_ENTER => "W".into(),
+            vclock::EV_BARRIER_LEAVE => "w".into(),
             _ => "?".into(),
         };
         per[e.thread as usize].push(tok);
@@ -388,6 +390,7 @@ pub fn exec(toks: &[&str]) -> String {
             }
             EV_CALL => 2,
             vclock::EV_TS_END => 3,
+            vclock::EV_BARRIER_ENTER | vclock::EV_BARRIER_LEAVE => continue,
             _ => 4,
         };
         evs.push((round[t], t, class));
@@ -432,6 +435,12 @@ pub fn exec(toks: &[&str]) -> String {
 }
 
 const SHAPES: [&str; 4] = ["zn", "zd", "sn", "sd"];
+
+/// The same stream for the build whose `Barrier` is instrumented: every
+/// request carries `bar=1` and the traces contain the waits.
+pub fn gen_bar(rng: &mut Rng, n: usize, prec: u64) -> Vec<String> {
+    gen(rng, n, prec).into_iter().map(|r| format!("{r} bar=1")).collect()
+}
 
 pub fn gen(rng: &mut Rng, n: usize, prec: u64) -> Vec<String> {
     let mut out = Vec::new();
